@@ -26,11 +26,13 @@ protected:
 
 inline void delete_objects(deletable_object*& list) {
   auto* cur = list;
+  // detach the list first: a deleter may use the reclaimer itself (retire further objects into this very list,
+  // or pass another reclamation point that works on it)
+  list = nullptr;
   for (deletable_object* next = nullptr; cur != nullptr; cur = next) {
     next = cur->next;
     cur->delete_self();
   }
-  list = nullptr;
 }
 
 template <class Derived, class DeleterT, class Base>
